@@ -6,7 +6,7 @@ def build_registry(world=None) -> Registry:
     from pyvc.world import World
     world = world or World()
     reg = Registry()
-    from . import c_utils, c_event, c_context, c_context_tables, c_context_lookup, c_teardown, lib_anyio, c_lifecycle, c_dispatch, c_concurrent, c_component, c_component_ctx, c_runner, c_inject, c_cli, c_streams
+    from . import c_utils, c_event, c_context, c_context_tables, c_context_lookup, c_teardown, lib_anyio, c_lifecycle, c_dispatch, c_concurrent, c_component, c_component_ctx, c_runner, c_inject, c_cli, c_streams, c_ctx_teardown
     c_utils.register(reg)
     c_event.register(reg)
     c_context.register(reg)
@@ -32,6 +32,7 @@ def build_registry(world=None) -> Registry:
     c_cli.register(reg)
     c_streams.register(reg)
     c_streams.register2(reg)
+    c_ctx_teardown.register(reg)
     reg._signal_decls = reg._signal_decl_finder(world)
     reg.world = world
     import os
